@@ -277,7 +277,7 @@ def aliasing(ctx, a):
                     return
 
 
-def run(ctx):
+def _run(ctx):
     import dpapi_ng._asn1 as a
     prelude.validate(ctx)
     rng = ctx.rng
@@ -440,6 +440,17 @@ def run(ctx):
     walk(ctx, a)
     aliasing(ctx, a)
     flush()
+
+
+def run(ctx):
+    import dpapi_ng._asn1 as am
+    import gen
+    names = ["_pack_asn1", "_pack_asn1_integer", "_pack_asn1_octet_string", "_pack_asn1_object_identifier", "_encode_object_identifier", "_read_asn1_header",
+             "_read_asn1_integer", "_read_asn1_object_identifier", "_read_asn1_octet_string", "_pack_asn1_octet_number", "_unpack_asn1_octet_number",
+             "_pack_asn1_utf8_string", "_read_asn1_utf8_string", "_read_asn1_boolean", "_pack_asn1_boolean"]
+    with gen.PurityRecorder(am, [n for n in names if hasattr(am, n)], limit=300) as rec:
+        _run(ctx)
+    rec.verify(ctx, "ASN.1 primitive codec")
 
 
 def search(ctx, broken, disagreements):
